@@ -125,6 +125,57 @@ pub fn run_c01(tier: &str) -> i32 {
     let perms7 = all_perms7();
     let sperms = suit_perms();
 
+    // (0) fail fast: all C(12,7) = 792 sets of a twelve-card sub-deck x 14 orders, twice over, sequentially on this
+    // thread (repeats of the same cards in close succession included). A tree that is wrong - or has become so slow
+    // that the full sweep would run into the wall cap - is reported from here within a second.
+    {
+        let sub: [u8; 12] = [0, 4, 8, 12, 16, 20, 24, 1, 5, 2, 6, 51];
+        let mut bad: Vec<Violation> = vec![];
+        let mut n = 0u64;
+        for _round in 0..2 {
+            for mask in 0u32..(1 << 12) {
+                if mask.count_ones() != 7 {
+                    continue;
+                }
+                let mut set = [0u8; 7];
+                let mut k = 0;
+                for (i, c) in sub.iter().enumerate() {
+                    if mask & (1 << i) != 0 {
+                        set[k] = *c;
+                        k += 1;
+                    }
+                }
+                set.sort_unstable();
+                let expected = m.class7_sorted(&set);
+                for ord in orders.iter() {
+                    let mut p = [0u8; 7];
+                    for i in 0..7 {
+                        p[i] = set[ord[i] as usize];
+                    }
+                    n += 1;
+                    let got = eval(arr(&all, &p));
+                    if got != Ok(expected) && bad.len() < 5 {
+                        bad.push(Violation {
+                            key: format!("cards={}", cards_text(&p)),
+                            sub: "fail-fast".into(),
+                            case: json!({"cards": p.to_vec(), "text": cards_text(&p)}),
+                            expected: json!({"class": expected, "category": CATEGORY_NAMES[m.category_of_class(expected)]}),
+                            observed: match got { Ok(v) => json!({"power_index": v}), Err(e) => json!({"panic": e}) },
+                        });
+                    }
+                }
+            }
+        }
+        rep.sub("fail-fast", "all 792 seven-card sets of a twelve-card sub-deck (seven spades A..8, Ah Kh Ad Kd, 2c) x 14 structured orders, the whole pass twice, sequentially on one thread, before the full sweep starts", n, 792, true, json!({}));
+        if !bad.is_empty() {
+            for v in bad {
+                rep.violation(v);
+            }
+            rep.bound("the full sweep was not started: the fail-fast pass already found violations");
+            return rep.finish();
+        }
+    }
+
     // (a)+(b): every set, ascending order vs M-rank; 13 further structured orders vs ascending
     let outs = par_map(its.len(), |k| {
         let (a, b) = its[k];
